@@ -485,3 +485,15 @@ func zooDefs() []string {
 	zooFrozen = true
 	return out
 }
+
+// the hand-made atlas configurations (ids < 100); the per-shape-family atlases have ids >= 100
+func zooAtlases() []*atlasCfg {
+	buildAtlases()
+	var out []*atlasCfg
+	for _, a := range atlases {
+		if a.id < 100 {
+			out = append(out, a)
+		}
+	}
+	return out
+}
